@@ -620,6 +620,7 @@ def main(pid, argv=None):
         unmodelled_composites_decode(ck)
         snoop_sequences(ck)
         ratfunc_pole_probe(ck, pid)
+        float_special_probe(ck)
     if pid == "C03" and (not ck.replay or doc_level):
         real_valued_reencode(ck)
     if pid == "C04" and (not ck.replay or doc_level):
@@ -1410,6 +1411,44 @@ def _ratfunc(cat, num, den, inv_num, inv_den):
     return (f"<COMPU-METHOD><CATEGORY>{cat}</CATEGORY><COMPU-INTERNAL-TO-PHYS><COMPU-SCALES>{sc(num, den)}</COMPU-SCALES>"
             f"</COMPU-INTERNAL-TO-PHYS><COMPU-PHYS-TO-INTERNAL><COMPU-SCALES>{sc(inv_num, inv_den)}</COMPU-SCALES>"
             "</COMPU-PHYS-TO-INTERNAL></COMPU-METHOD>")
+
+
+def float_special_probe(ck):
+    """C05 (oracle only; floats are outside the codec model): A_FLOAT32 objects whose compu method converts to an INTEGER
+    physical type -- LINEAR, SCALE-LINEAR, TAB-INTP, RAT-FUNC -- decoding NaN, the infinities, the largest finite value and
+    ordinary values: a value or a DecodeError, nothing else"""
+    import hier_common as hc
+    from odxtools.exceptions import DecodeError
+    lin = "<COMPU-SCALE>%s<COMPU-RATIONAL-COEFFS><COMPU-NUMERATOR><V>0</V><V>2</V></COMPU-NUMERATOR><COMPU-DENOMINATOR><V>1</V></COMPU-DENOMINATOR></COMPU-RATIONAL-COEFFS></COMPU-SCALE>"
+    cms = {
+        "lin": "<COMPU-METHOD><CATEGORY>LINEAR</CATEGORY><COMPU-INTERNAL-TO-PHYS><COMPU-SCALES>" + lin % "" + "</COMPU-SCALES></COMPU-INTERNAL-TO-PHYS></COMPU-METHOD>",
+        "slin": ("<COMPU-METHOD><CATEGORY>SCALE-LINEAR</CATEGORY><COMPU-INTERNAL-TO-PHYS><COMPU-SCALES>" + lin % "<UPPER-LIMIT>0</UPPER-LIMIT>" +
+                 lin % "<LOWER-LIMIT>0</LOWER-LIMIT>" + "</COMPU-SCALES></COMPU-INTERNAL-TO-PHYS></COMPU-METHOD>"),
+        "tab": _tab([(0, 0), (10, 100), (1000000, 5)]),
+        "rat": _ratfunc_cm("RAT-FUNC", [1, 1], [1], [-1, 1], [1]),
+    }
+    dops = "".join(_real_dop(n, 32, cm, '<PHYSICAL-TYPE BASE-DATA-TYPE="A_INT32"/>').replace('BASE-DATA-TYPE="A_UINT32" xsi:type', 'BASE-DATA-TYPE="A_FLOAT32" xsi:type')
+                   for n, cm in cms.items())
+    reqs = "".join(f'<REQUEST ID="rq_{n}"><SHORT-NAME>rq_{n}</SHORT-NAME><PARAMS><PARAM xsi:type="VALUE"><SHORT-NAME>v</SHORT-NAME>'
+                   f'<DOP-REF ID-REF="{n}"/></PARAM></PARAMS></REQUEST>' for n in cms)
+    doc = ('<?xml version="1.0" encoding="UTF-8"?><ODX MODEL-VERSION="2.2.0" xmlns:xsi="http://www.w3.org/2001/XMLSchema-instance">'
+           '<DIAG-LAYER-CONTAINER ID="DLC"><SHORT-NAME>DLC</SHORT-NAME><BASE-VARIANTS><BASE-VARIANT ID="BV"><SHORT-NAME>BV</SHORT-NAME>'
+           f'<DIAG-DATA-DICTIONARY-SPEC><DATA-OBJECT-PROPS>{dops}</DATA-OBJECT-PROPS></DIAG-DATA-DICTIONARY-SPEC>'
+           f'<REQUESTS>{reqs}</REQUESTS></BASE-VARIANT></BASE-VARIANTS></DIAG-LAYER-CONTAINER></ODX>')
+    try:
+        raw = hc.load_docs([doc]).diag_layers[0].diag_layer_raw
+    except Exception as e:  # noqa
+        ck.note_broken(f"cannot load the document of float objects with integer physical types: {type(e).__name__}: {e}")
+        return
+    for rq in raw.requests:
+        for h in ("3fc00000", "7fc00000", "ffc00001", "7f800000", "ff800000", "7f7fffff", "ff7fffff", "00000000", "80000000", "00000001", "41200000"):
+            m = bytes.fromhex(h)
+            ck.count(("float-special", rq.short_name, h))
+            r, e, _ = cc.guarded(lambda: rq.decode(m), timeout=3)
+            if e is not None and not isinstance(e, DecodeError):
+                ck.violation(f"decoding the A_FLOAT32 pattern {h} with {rq.short_name} (integer physical type) raised {type(e).__name__}: {e}",
+                             {"document": "harness/codec_checks.py float_special_probe", "request": rq.short_name, "msg": h})
+                break
 
 
 def ratfunc_pole_probe(ck, pid):
